@@ -165,7 +165,7 @@ impl Router {
     /// 2) Call appropriate handler based on message id.
     /// 3) Remove handler once channel closes.
     fn run(&mut self) {
-        loop {
+        'run: loop {
             // Wait for events to come from our select() new channels are added to
             // our ReceiverSet below.
             let results = match self.ipc_receiver_set.select() {
@@ -186,10 +186,14 @@ impl Router {
                                 self.handlers.insert(new_receiver_id, handler);
                             },
                             RouterMsg::Shutdown(sender) => {
+                                // Drop the handlers (and whatever they own) before
+                                // acknowledging, and stop routing altogether:
+                                // no handler may run once `shutdown()` has returned.
+                                self.handlers.clear();
                                 sender
                                     .send(())
                                     .expect("Failed to send comfirmation of shutdown.");
-                                break;
+                                break 'run;
                             },
                         }
                     },
